@@ -75,6 +75,15 @@ theorem delta_eof (n : Nat) (hn : 0 < n) (bits : List Bool)
     (h : Model.Delta.table n bits = .errEof) : Spec.Delta.table n bits = none := by
   rw [← Lemmas.Delta.table_eq n hn bits, h]; rfl
 
+/-- Sanity of the finite core (it can fail): with the range test of the tree
+BEFORE the fix (`shape = 0`: net effect of the window only) the window
+`10 11 0` at length 20 — the excursion 20 → 21 → 20 of finding F1 — is
+accepted although the reference rejects it. -/
+theorem deltaWindow_excursion_old_shape :
+    Model.Delta.stepLenShape 0 20 0b101100 = some 20 ∧
+      Lemmas.Delta.symW 3 20 [true, false, true, true, false, false] = .reject := by
+  decide
+
 private def bitsOf (s : String) : List Bool := s.toList.map (· == '1')
 
 -- a zig-zag table for 4 symbols: start 19, +1 → 20 | −1 −1 → 18 | = | +1 → 19
